@@ -10,6 +10,9 @@ def replay_fsx(body: dict) -> int:
     from .worlds import history_from_json
 
     rp = body["replay"]
+    from .primer import prime_process
+
+    prime_process()
     world = _load(tuple(rp["world_spec"][:2]) + (rp["world_spec"][2],))
     monitors = _load(tuple(rp["monitor_spec"][:2]) + (rp["monitor_spec"][2],))
     history = history_from_json(rp["history"])
